@@ -81,3 +81,9 @@ def discover(ctx):
         if l.startswith("NAMES "):
             return json.loads(l[6:])
     raise RuntimeError("helper discovery failed: " + p.stderr[-500:])
+
+
+def extra(tier, ctx):
+    # the stub world (virtual clock, scripted streams) is shared with C14: validate it against real anyio
+    from symcheck import runner
+    return runner.envdiff("harness.h_C14", 200 if tier == "quick" else 1500, ctx["seed"])
